@@ -9,7 +9,7 @@ TEXT = ["x", "xay", "b,x", "", "xx", "q", "#c"]
 
 
 @st.composite
-def cat_table(draw, ragged=False, max_rows=5, min_rows=0, cells=None):
+def cat_table(draw, ragged=False, max_rows=5, min_rows=0, cells=None, ragged_min=0):
     p = draw(st.lists(st.sampled_from(KEYS), min_size=2, max_size=4))
     kcell = st.sampled_from(p)
     cols = [kcell, kcell, st.sampled_from(VALS), st.sampled_from(TEXT)]
@@ -18,16 +18,16 @@ def cat_table(draw, ragged=False, max_rows=5, min_rows=0, cells=None):
         cols[catalog.H.index(f)] = (st.lists(v, min_size=2, max_size=2) if kind == "pair"
                                     else st.fixed_dictionaries({"p": v}, optional={"q": v}))
     t = draw(gen.table(list(catalog.H), cols, max_rows=max_rows, min_rows=min_rows, ragged=ragged,
-                       extra=st.sampled_from(VALS)))
+                       extra=st.sampled_from(VALS), ragged_min=ragged_min))
     return t
 
 
 @st.composite
-def cat_case(draw, names, max_rows=5, min_rows=0, allow_ragged=True):
+def cat_case(draw, names, max_rows=5, min_rows=0, allow_ragged=True, ragged_min=0):
     name = draw(st.sampled_from(names))
     e = catalog.get(name)
     ragged = allow_ragged and not e.has("rect") and draw(st.booleans())
-    S = [draw(cat_table(ragged=ragged, max_rows=max_rows, min_rows=min_rows, cells=e.cells)) for _ in range(e.n)]
+    S = [draw(cat_table(ragged=ragged, max_rows=max_rows, min_rows=min_rows, cells=e.cells, ragged_min=ragged_min)) for _ in range(e.n)]
     return {"entry": name, "sources": S}
 
 
